@@ -8,7 +8,7 @@
 #define FCRE_PRE \
 __CPROVER_requires(IORA_TRUE && iora_exc == EXC_NONE && data.n <= ((size_t)1 << 50) && __CPROVER_is_fresh(data.p, data.n)) \
 __CPROVER_requires(bodyStart <= data.n && GF <= data.n && G_stoul_calls == 0) \
-__CPROVER_assigns(iora_exc, iora_exc_caught, G_stoul_calls, G_stoul_off, G_stoul_n, G_stoul_ret, G_stoul_exc)
+__CPROVER_assigns(iora_exc, iora_exc_caught, G_stoul_calls, G_stoul_off, G_stoul_n, G_stoul_ret, G_stoul_exc, G_stoul_used)
 
 /* proof "safety": all built-in obligations (bounds, pointers, signed + UNSIGNED overflow = "no wrap in position
  * arithmetic", conversions), shim preconditions (substr/operator[] in range), loop invariant + variant (termination:
@@ -58,7 +58,7 @@ void h_step(void)
   __CPROVER_assume(buf != NULL);
   iora_sv data = { buf, n };
   size_t bodyStart = nondet_size_t(), pos = nondet_size_t();
-  IORA_TRUE = 1; iora_exc = EXC_NONE; G_step_fell = 0; G_stoul_calls = 0; G_stoul_exc = EXC_NONE;
+  IORA_TRUE = 1; iora_exc = EXC_NONE; iora_exc_caught = EXC_NONE; G_step_fell = 0; G_stoul_calls = 0; G_stoul_exc = EXC_NONE;
   __CPROVER_assume(bodyStart <= pos && pos <= data.n);          /* loop invariant */
   __CPROVER_assume(pos < data.n);                                /* loop condition */
   __CPROVER_assume(GF <= n);
@@ -75,6 +75,15 @@ void h_step(void)
     /* T2 the chunk-size line is exactly the bytes from pos up to the FIRST CRLF */
     __CPROVER_assert(G_stoul_off == pos0 && LINE_END + 2 <= n && IORA_SV_CRLF_AT(data, LINE_END), "T2 size line starts at pos and ends at a CRLF");
     __CPROVER_assert(!(pos0 <= GF && GF < LINE_END && IORA_SV_CRLF_AT(data, GF)), "T2 no earlier CRLF (witness GF)");
+    /* T6 (RFC 9112 7.1.1: chunk = chunk-size [chunk-ext] CRLF, chunk-size = 1*HEXDIG, chunk-ext = *( BWS ";" ... )): a size line that starts with a hex digit
+     *    and whose digit run (the characters std::stoul consumed: all hex, witness GH; not followed by another hex digit) is followed by nothing or by ';'-introduced
+     *    extension text up to the CRLF is NEVER rejected as an invalid size: the conversion handler does not run. Acceptance does not depend on the bytes after
+     *    the digits; the size used is the value of the digits (stub value clauses + T4/T5). */
+    if (G_stoul_exc == EXC_NONE) {
+      _Bool digits_then_ext = HX_IS(data.p[pos0]) && G_stoul_used >= 1 && G_stoul_used <= G_stoul_n && (G_stoul_used == G_stoul_n || data.p[pos0 + (G_stoul_used < G_stoul_n ? G_stoul_used : 0)] == (char)59);
+      if (digits_then_ext && G_stoul_used < G_stoul_n) { IORA_CANARY("h_step: size line with a chunk extension"); }
+      __CPROVER_assert(!digits_then_ext || iora_exc_caught == EXC_NONE, "T6 a chunk-size line 1*HEXDIG [chunk-ext] is not rejected as an invalid size (chunk extensions are allowed)");
+    }
     if (G_stoul_exc != EXC_NONE) {
       IORA_CANARY("h_step: size rejected");
       __CPROVER_assert(r == IORA_NPOS && !G_step_fell, "T3 a chunk-size that does not convert is rejected, not framed");
@@ -109,5 +118,11 @@ void h_search(void)
   __CPROVER_assert(r == IORA_NPOS || (0 < r && r <= data.n), "S1");
   __CPROVER_assert(r == IORA_NPOS || r >= 5, "F1");
   __CPROVER_assert(r == IORA_NPOS || IORA_SV_CRLF2_AT(data, r - 4), "F2 body ends with CRLF CRLF");
+  /* X1 (bounded): `0 [";" chunk-ext] CRLF CRLF` is a complete chunked body and is framed at its end (T4/T6 on a concrete input) */
+  for (size_t k = 1; k <= 4; k++) {
+    _Bool shape = k + 4 <= IN_N && IN[0] == 48 && (k == 1 || IN[1] == 59) && IN[k] == 13 && IN[k + 1] == 10 && IN[k + 2] == 13 && IN[k + 3] == 10;
+    for (size_t j = 1; j < 4; j++) if (j < k && (IN[j] == 13 || IN[j] == 10)) shape = 0;
+    __CPROVER_assert(!shape || r == k + 4, "T6 a chunk-size line 1*HEXDIG [chunk-ext] is not rejected as an invalid size (chunk extensions are allowed)");
+  }
 }
 #endif
